@@ -14,3 +14,4 @@ pub mod mutate;
 pub mod scenario;
 pub mod ledger;
 pub mod props;
+pub mod fuzz;
